@@ -18,6 +18,8 @@ def run(ctx):
     scen += wlfam.line_scenarios(rng, quick, None if quick else wlfam.shipped_lists(ctx))
     files, cells, leaves = wlfam.run_scenarios(ctx, scen, "c04")
     verdicts, decided = wlfam.validate(ctx, files)
+    if decided < max(5, cells // 5) and not ctx.violations:
+        raise vlib.Undecided("only %d of %d cells gave an exact distribution (the scripted source no longer drives the generator?)" % (decided, cells))
     ctx.evaluations = leaves
     ctx.nontrivial = decided
     ctx.cover.update(cells=cells, leaves=leaves, cells_with_exact_distribution=decided)
